@@ -91,7 +91,7 @@ var checkCfgs = map[string]checkCfg{
 	"C18": {engine: "world", quickRuns: 3000, thoroughRuns: 60000, env: []string{"GODEBUG=clobberfree=1"}, crashIsMine: true, binName: "sim-checkptr", buildFlags: []string{"-gcflags=all=-d=checkptr=2"}, points: true},
 	"C10": {engine: "node", quickRuns: 4000, thoroughRuns: 120000},
 	"C16": {engine: "race", quickRuns: 320, thoroughRuns: 30000},
-	"C17": {engine: "heap", quickRuns: 144, thoroughRuns: 576},
+	"C17": {engine: "heap", quickRuns: 288, thoroughRuns: 1152},
 }
 
 type checker struct {
@@ -111,6 +111,7 @@ type checker struct {
 	notes   []string
 	kfPrinted map[string]bool
 	seenSig   map[string]bool
+	inconclusive []string
 }
 
 func (c *checker) knownIDs(domain string) string {
@@ -679,17 +680,32 @@ func (c *checker) handleViolations(bin string, br *batchResult, extraEnv []strin
 		if cd.v != nil {
 			sig = cd.v.Class + "/" + cd.v.Oracle
 		}
-		if seen[sig] || reported >= 4 {
+		if seen[sig] || reported >= 3 {
 			continue
 		}
 		tr := genTrace(c.prop, c.seed, cd.run, o)
 		tr.Points = cd.points
-		cv := c.execChild(bin, tr, extraEnv, 5*time.Minute)
-		want := cv.Violation
-		if want == nil {
-			want = c.crashViolation(tr, cv)
+		confirmTries := 1
+		if c.cfg.engine == "race" {
+			// under -race sync.Pool drops one Put in four at random: whether another
+			// goroutine's tree receives the very node just released is a coin flip
+			confirmTries = 10
+		}
+		var cv *childVerdict
+		var want *Violation
+		for a := 0; a < confirmTries && want == nil; a++ {
+			cv = c.execChild(bin, tr, extraEnv, 5*time.Minute)
+			want = cv.Violation
+			if want == nil {
+				want = c.crashViolation(tr, cv)
+			}
 		}
 		if want == nil {
+			if cd.v == nil && !cv.crashed && !cv.timedOut {
+				// a worker died in this run but the run alone is clean: inconclusive, never silent
+				c.inconclusive = append(c.inconclusive, fmt.Sprintf("run %d: a worker process died during this run, the run re-executed alone is clean", cd.run))
+				continue
+			}
 			if cv.crashed && cd.v == nil {
 				c.logf("run %d crashed outside this property's obligations (step %d); not reported here", cd.run, cv.lastStep)
 				br.upstream++
@@ -733,8 +749,11 @@ func (c *checker) handleViolations(bin string, br *batchResult, extraEnv []strin
 		}
 		runtime.GOMAXPROCS(1)
 		mbudget := 90 * time.Second
+		if c.tier == "quick" {
+			mbudget = 20 * time.Second
+		}
 		if want.Class == "race" {
-			mbudget = 45 * time.Second
+			mbudget = 30 * time.Second
 		}
 		small := minimise(tr, want, test, mbudget)
 		runtime.GOMAXPROCS(runtime.NumCPU())
@@ -989,6 +1008,15 @@ func checkMain(args []string) int {
 	}
 	for _, n := range c.notes {
 		fmt.Fprintln(os.Stderr, "NOTE:", n)
+	}
+	for _, n := range c.inconclusive {
+		fmt.Fprintln(os.Stderr, "INCONCLUSIVE:", n)
+	}
+	if cov != nil {
+		cov["inconclusive"] = len(c.inconclusive)
+		if len(c.inconclusive) > 0 {
+			cov["inconclusive_detail"] = c.inconclusive
+		}
 	}
 	if c.broken {
 		fmt.Fprintln(os.Stderr, "check could not be completed (exit 2); no verdict")
